@@ -460,6 +460,18 @@ func vfIsolatedRunner(sc *vfScenario) *vfViolation {
 
 // vfCrashViolation classifies the stderr of a dead worker process.
 func vfCrashViolation(stderr string) *vfViolation {
+	if i := strings.Index(stderr, "WARNING: DATA RACE"); i >= 0 {
+		// the race-detector tier: the process halts at the first report
+		rep := stderr[i:]
+		if j := strings.Index(rep, "=================="); j > 0 {
+			rep = rep[:j]
+		}
+		sig := vfFirstPkgFrame(rep)
+		if sig == "?" {
+			return &vfViolation{Class: "harness-panic", Sig: "harness-race", Msg: "data race reported with no package frame in it:\n" + vfTail(rep, 1500)}
+		}
+		return &vfViolation{Class: "race/data-race", Sig: sig, Msg: "the race detector reports unsynchronised access in package code during this run:\n" + rep[:min(len(rep), 1800)]}
+	}
 	if strings.Contains(stderr, "VF-WEDGE") {
 		return &vfViolation{Class: "hang/wedge", Sig: vfFirstPkgFrame(stderr), Msg: "scheduler could not reach quiescence (goroutine spinning or blocked on a lock)"}
 	}
@@ -489,6 +501,7 @@ func vfTail(s string, n int) string {
 
 func vfFirstPkgFrame(st string) string {
 	for _, l := range strings.Split(st, "\n") {
+		l = strings.TrimSpace(l)
 		if strings.HasPrefix(l, "github.com/pkg/sftp.") && !strings.Contains(l, ".vf") && !strings.Contains(l, "TestVF") {
 			l = strings.TrimPrefix(l, "github.com/pkg/sftp.")
 			if j := strings.LastIndex(l, "("); j > 0 {
@@ -603,7 +616,10 @@ func vfWorkerRun(t *testing.T, journal string) {
 		if res.NonTrivial {
 			nontriv[vfMix(res.SchedHash, vfHashStr(sc.summary()))] = true
 		}
-		if wantHashes {
+		if sc.cfg("coin", 0) != 0 {
+			out.Stats["runs.exposed_to_select_coin"]++
+		}
+		if wantHashes && sc.cfg("coin", 0) == 0 {
 			out.LogHashes[fmt.Sprintf("%s/%d", sc.Class, idx)] = fmt.Sprintf("%016x", res.Hash)
 		}
 		if len(out.Samples) < 3 && res.NonTrivial {
